@@ -82,7 +82,23 @@ func (c *ctx) packageVisibility() {
 				}
 			case *ast.CallExpr:
 				if fullName(astx.Callee(fc.pkg.TypesInfo, x)) == "go/types.TypeString" && len(x.Args) == 2 {
-					if fl, ok := x.Args[1].(*ast.FuncLit); ok {
+					arg := x.Args[1]
+					if id, ok := astx.Unparen(arg).(*ast.Ident); ok {
+						// a local holding the qualifier: its single definition
+						obj := astx.ObjOf(fc.pkg.TypesInfo, id)
+						astx.Writes(fd.Body, func(l ast.Expr, at ast.Node) {
+							if astx.IdentObj(fc.pkg.TypesInfo, l) == obj {
+								if as, ok := at.(*ast.AssignStmt); ok && len(as.Lhs) == len(as.Rhs) {
+									for i := range as.Lhs {
+										if as.Lhs[i] == l {
+											arg = as.Rhs[i]
+										}
+									}
+								}
+							}
+						})
+					}
+					if fl := c.funcLitOf(arg, 0); fl != nil {
 						lits = append(lits, fl)
 						where = append(where, "generator."+name+"|type qualifier")
 					}
@@ -94,11 +110,13 @@ func (c *ctx) packageVisibility() {
 	if len(lits) < 2 {
 		c.s.Unk("G31", "generator|package-name producers", "", "the \"import\" template function and the type printer's qualifier were not both found")
 	}
-	for i, fl := range lits {
-		fc := c.fileOf(fl)
+	// unchecked: the position of a return that hands out a non-empty name without a preceding check ("" = none)
+	var unchecked func(body *ast.BlockStmt, root ast.Node, depth int) string
+	unchecked = func(body *ast.BlockStmt, root ast.Node, depth int) string {
+		fc := c.fileOf(body)
 		bad := ""
-		ast.Inspect(fl.Body, func(n ast.Node) bool {
-			if inner, ok := n.(*ast.FuncLit); ok && inner != fl {
+		ast.Inspect(body, func(n ast.Node) bool {
+			if inner, ok := n.(*ast.FuncLit); ok && ast.Node(inner) != root {
 				return false
 			}
 			ret, ok := n.(*ast.ReturnStmt)
@@ -108,9 +126,33 @@ func (c *ctx) packageVisibility() {
 			if tv, ok := info.Types[ret.Results[0]]; ok && tv.Value != nil && tv.Value.ExactString() == `""` {
 				return true // no qualifier: same package
 			}
+			// delegated to a package-local function: its returns are judged instead
+			if call, ok := astx.Unparen(ret.Results[0]).(*ast.CallExpr); ok && depth < 2 {
+				if fn := astx.Callee(info, call); fn != nil && fn.Pkg() == c.inter.Types {
+					for _, f2 := range c.files {
+						if d := astx.DeclOfFunc(info, []*ast.File{f2.file}, fn); d != nil && d.Body != nil {
+							// only for helpers that hand out names themselves (they contain a check); plain string helpers
+							// such as printImportAlias are judged at this return
+							has := false
+							ast.Inspect(d.Body, func(m ast.Node) bool {
+								if c2, ok := m.(*ast.CallExpr); ok && isCheck(c2) {
+									has = true
+								}
+								return true
+							})
+							if has {
+								if b := unchecked(d.Body, d, depth+1); b != "" {
+									bad = b
+								}
+								return true
+							}
+						}
+					}
+				}
+			}
 			// a check call earlier on the way to this return: in the same block or an enclosing one, before it
 			checked := false
-			for x := ast.Node(ret); x != nil && x != ast.Node(fl); x = fc.par[x] {
+			for x := ast.Node(ret); x != nil && x != root; x = fc.par[x] {
 				blk, ok := fc.par[x].(*ast.BlockStmt)
 				if !ok {
 					continue
@@ -119,15 +161,11 @@ func (c *ctx) packageVisibility() {
 					if st.Pos() >= x.Pos() {
 						break
 					}
-					ast.Inspect(st, func(m ast.Node) bool {
-						if call, ok := m.(*ast.CallExpr); ok && isCheck(call) {
-							// unconditional within its statement: an expression statement at this level
-							if es, ok := st.(*ast.ExprStmt); ok && es.X == ast.Expr(call) {
-								checked = true
-							}
+					if es, ok := st.(*ast.ExprStmt); ok {
+						if call, ok := es.X.(*ast.CallExpr); ok && isCheck(call) {
+							checked = true
 						}
-						return true
-					})
+					}
 				}
 			}
 			if !checked {
@@ -135,6 +173,10 @@ func (c *ctx) packageVisibility() {
 			}
 			return true
 		})
+		return bad
+	}
+	for i, fl := range lits {
+		bad := unchecked(fl.Body, fl, 0)
 		c.s.Check(bad == "", "G31", where[i]+" checks the name it returns", c.pos(fl), "every non-empty package name handed to the templates is looked up in the directive's scope first", "a package name is handed to the templates (return at "+bad+") without the visibility check: a local declaration of that name captures the generated reference")
 	}
 	// (c)
@@ -145,41 +187,51 @@ func (c *ctx) packageVisibility() {
 			continue
 		}
 		finfo := fc.pkg.TypesInfo
-		// the first ExecuteTemplate (body) and the first write to the output parameter
-		var exec, firstWrite token.Pos
+		// positions in the inlined call sequence: the first ExecuteTemplate (the body, wherever it is rendered),
+		// the collector call in this function, the first later call that is handed the output parameter
 		var wObj interface{}
 		for _, f := range fd.Type.Params.List {
 			if t := finfo.TypeOf(f.Type); t != nil && t.String() == "io.Writer" && len(f.Names) == 1 {
 				wObj = finfo.Defs[f.Names[0]]
 			}
 		}
-		collected := token.NoPos
-		for _, ic := range astx.CallsInlined(finfo, fc.pkg.Syntax, fd, 2) {
+		idxExec, idxCollected, idxWrite := -1, -1, -1
+		for i, ic := range astx.CallsInlined(finfo, fc.pkg.Syntax, fd, 2) {
 			call := ic.Call
 			se, _ := call.Fun.(*ast.SelectorExpr)
-			if len(ic.Chain) == 0 && se != nil && se.Sel.Name == "ExecuteTemplate" && !exec.IsValid() {
-				exec = call.Pos()
+			if se != nil && se.Sel.Name == "ExecuteTemplate" && idxExec < 0 {
+				idxExec = i
+				continue
 			}
-			if len(ic.Chain) == 0 && !firstWrite.IsValid() {
+			if idxExec < 0 {
+				continue
+			}
+			if idxWrite < 0 {
 				for _, a := range call.Args {
-					if o := astx.IdentObj(finfo, ic.Resolve(a)); o != nil && interface{}(o) == wObj && exec.IsValid() && call.Pos() > exec {
-						firstWrite = call.Pos()
+					if o := astx.IdentObj(finfo, ic.Resolve(a)); o != nil && interface{}(o) == wObj {
+						idxWrite = i
+					}
+				}
+				if se != nil {
+					if o := astx.IdentObj(finfo, ic.Resolve(se.X)); o != nil && interface{}(o) == wObj {
+						idxWrite = i
 					}
 				}
 			}
-			// a call whose error result is tested and which (transitively) does not itself check: the collector
-			if len(ic.Chain) == 0 && exec.IsValid() && call.Pos() > exec && !collected.IsValid() {
+			// the collector: a call in this function whose error result is tested and which reads what the check wrote
+			if len(ic.Chain) == 0 && idxCollected < 0 {
 				if fn := astx.Callee(finfo, call); fn != nil && fn.Pkg() == c.inter.Types {
 					for _, f2 := range c.files {
 						if d := astx.DeclOfFunc(finfo, []*ast.File{f2.file}, fn); d != nil && d.Body != nil && c.sharesFieldWith(d, checks) {
 							if is, ok := fc.par.Enclosing(call, func(n ast.Node) bool { _, ok := n.(*ast.IfStmt); return ok }).(*ast.IfStmt); ok && is.Init != nil && fc.par.Within(call, is.Init) && astx.Terminates(is.Body) {
-								collected = call.Pos()
+								idxCollected = i
 							}
 						}
 					}
 				}
 			}
 		}
+		exec, collected, firstWrite := token.Pos(idxExec+1), token.Pos(idxCollected+1), token.Pos(idxWrite+1)
 		good := exec.IsValid() && collected.IsValid() && (!firstWrite.IsValid() || collected < firstWrite)
 		c.s.Check(good, "G31", "generator."+name+"|recorded visibility errors are returned before the output is written", c.pos(fd), "", "the errors recorded by the visibility check are not collected and returned after the body template was executed (and before the first write to the output): the check has no effect")
 	}
